@@ -304,8 +304,17 @@ class Env(object):
             if i in cbdisc:
                 holder["c"].disconnect()
 
+        ondisc = case.get("ondisc")
+
         def on_disc():
             ndisc[0] += 1
+            if ondisc:          # what TCPTransport._onDisconnected does: dial again at once (and send)
+                self.connect_ok[0] = bool(ondisc["ok"])
+                self.next_sends[:] = []
+                holder["c"].connect("127.0.0.1", 4321)
+                self.last_sock[0].stream = stream
+                for m in ondisc["msgs"]:
+                    holder["c"].send(self.table.vals[m])
 
         def on_conn():
             if flags["oc"]:
@@ -313,6 +322,7 @@ class Env(object):
 
         self.clock[0] = case["init"]["now"]
         sock = None
+        self.last_sock[0] = None
         stream = [case["_stream"], 0] if "_stream" in case else None
         kw = dict(onMessageReceived=on_msg, onDisconnected=on_disc, onConnected=on_conn,
                   timeout=case["timeout"], recvBufferSize=case.get("recvbuf", 2 ** 13))
@@ -370,6 +380,10 @@ class Env(object):
                 if isinstance(e, AssertionError) and "harness bug" in str(e):
                     raise
                 exc.append((idx, k, type(e).__name__))
+            if ondisc and self.last_sock[0] is not None and self.last_sock[0] is not sock:
+                sock = self.last_sock[0]            # the callback dialled again during this event
+                if conn.fileno() is not None:
+                    last_fd[0] = conn.fileno()
             steps.append(self.snapshot(conn, sock, poller, delivered, ndisc))
             # the two facts that let the model write `self.__socket is not sock` (D53) as `state == DISCONNECTED`
             fn = conn.fileno()
@@ -385,7 +399,7 @@ class Env(object):
 # model side
 # ------------------------------------------------------------------------------------------------
 def driver_case(case):
-    return {k: case[k] for k in ("timeout", "enc", "dec", "none", "cbdisc", "init", "evs") if k in case} | \
+    return {k: case[k] for k in ("timeout", "enc", "dec", "none", "cbdisc", "init", "evs", "ondisc") if k in case} | \
            ({"pinned": True} if case.get("pinned") else {})
 
 
@@ -730,6 +744,15 @@ def gen_writer(env, rng, n, benign=True):
             # final flush: accept everything
             c["evs"].append(read_ev(now, [], rd=False, wr=True, sends=[10 ** 9] * 3))
         c["expect"] = {"mon": "writer", "sent": sent, "benign": benign}
+        if not benign and rng.random() < 0.35:
+            # the onDisconnected callback dials again at once and queues messages of its own (correspondence only;
+            # the per-connection property monitor for this situation is the family "resend")
+            ms = [t.vid(gen_value(rng)) for _ in range(rng.randrange(0, 3))]
+            for i in ms:
+                add_msg(env, c, i)
+            c["ondisc"] = {"ok": rng.random() < 0.8, "msgs": ms}
+            c["kind"] = "writer-faulty-redial"
+            c["expect"] = {"mon": "none"}
         yield c
 
 
@@ -787,7 +810,12 @@ def gen_mixed(env, rng, n):
                 c["evs"].append({"k": "disc"})
             else:
                 c["evs"].append({"k": "conn", "ok": rng.random() < 0.8, "now": now})
-        c["expect"] = {"mon": "mixed", "peer": peer_ids, "clean": not corrupted and
+        if rng.random() < 0.25:
+            ms = [t.vid(gen_value(rng)) for _ in range(rng.randrange(0, 3))]
+            for i in ms:
+                add_msg(env, c, i)
+            c["ondisc"] = {"ok": rng.random() < 0.8, "msgs": ms}
+        c["expect"] = {"mon": "mixed", "peer": peer_ids, "clean": not corrupted and "ondisc" not in c and
                        not any(e["k"] == "conn" for e in c["evs"])}
         yield c
 
@@ -944,6 +972,25 @@ def gen_directed(env):
                     {"k": "conn", "ok": True, "now": 6}, {"k": "conn", "ok": True, "now": 7}]
         c["expect"] = {"mon": "none"}
         out.append(c)
+    # a short write of a big message, then a hard error / negative result in the SAME flush, on an object whose
+    # onDisconnected callback dials again at once and queues a message (seeded C13-14)
+    bigm = t.vid(bytes(range(256)) * 40)
+    for name, tail in (("err", "e"), ("neg", -1)):
+        for via in ("send", "wev"):
+            for ok in (True, False):
+                c = new_case(env, "directed-redial-%s-%s-%s" % (via, name, "ok" if ok else "refused"))
+                add_msg(env, c, a)
+                add_msg(env, c, b)
+                add_msg(env, c, bigm)
+                c["ondisc"] = {"ok": ok, "msgs": [b]}
+                first = [100, tail] if via == "send" else [100, "a"]
+                c["evs"] = [{"k": "send", "m": bigm, "now": 1, "s": first}] + \
+                    ([read_ev(2, [], rd=False, wr=True, sends=[50, tail])] if via == "wev" else []) + \
+                    [{"k": "send", "m": a, "now": 3, "s": ["a"]}, read_ev(4, [], rd=False, wr=True, sends=[]),
+                     read_ev(5, [], rd=False, wr=True, sends=[10 ** 6]), {"k": "disc"},
+                     read_ev(6, [], rd=False, wr=True, sends=[10 ** 6])]
+                c["expect"] = {"mon": "none"}
+                out.append(c)
     # None as a message: the parse loop's sentinel
     n = t.vid(None)
     c = rc("none-message", [a, n, b], [[fa + t.frame(n) + fb], [fa]], {"mon": "valid", "sent": [a, n, b, a]})
@@ -1290,7 +1337,9 @@ def run_reconnect_family(env, rng, n, cov, out, seen=None):
 # whose send() was called while connection k was the object's open connection (all of them after a full flush)
 # ------------------------------------------------------------------------------------------------
 RESEND_VARIANTS = ["send-while-disconnected", "send-from-callback"]
-RESEND_CAUSES = ["neg", "undec", "eof", "recverr", "timeout"]
+RESEND_CAUSES = ["neg", "undec", "eof", "recverr", "timeout",
+                 # the connection dies INSIDE a flush, after the socket took a part of a big message:
+                 "send-short-then-error", "send-short-then-negative", "wev-short-then-error"]
 
 
 def gen_resend(env, rng, n):
@@ -1304,11 +1353,14 @@ def gen_resend(env, rng, n):
     for j in range(n):
         variant = RESEND_VARIANTS[j % 2]
         cause = RESEND_CAUSES[(j // 2) % len(RESEND_CAUSES)]
-        mode = RECONNECT_MODES[(j // 10) % len(RECONNECT_MODES)]
+        mode = RECONNECT_MODES[(j // (2 * len(RESEND_CAUSES))) % len(RECONNECT_MODES)]
         ops = []
         for _ in range(rng.randrange(0, 3)):
             ops.append(["send", msg(rng.random() < 0.2), benign()])
-        ops.append(["kill", cause])
+        if cause.startswith(("send-", "wev-")):
+            ops.append(["kill", cause, msg(True), rng.choice([1, 3, 100, 1000, 2500])])
+        else:
+            ops.append(["kill", cause])
         cb = None
         if variant == "send-from-callback":
             sends = []
@@ -1351,6 +1403,7 @@ def run_resend(env, sc):
         conn = holder["c"]
         sock = env.last_sock[0]
         live = conn.state != 0              # public API: is there an open (or opening) connection to send on?
+        cur = len(obs["conns"]) - 1         # ... and which one (the callback may dial a new one during this send)
         if sock is not None and not sock.closed:
             sock.sends = list(script)
         before = len(sock.wire) if sock is not None else 0
@@ -1358,8 +1411,8 @@ def run_resend(env, sc):
             conn.send(t.vals[mid])
         except Exception as e:   # noqa
             obs["exc"].append("send:" + type(e).__name__)
-        if live and obs["conns"]:
-            obs["conns"][-1]["expected"].append(mid)
+        if live and cur >= 0:
+            obs["conns"][cur]["expected"].append(mid)
         took = (len(sock.wire) if sock is not None else 0) - before
         if not live:
             obs["cov"].append("a-send-while-disconnected")
@@ -1441,6 +1494,14 @@ def run_resend(env, sc):
                 fire(POLL.READ, [[(struct.pack("<i", 3) + b"xyz").hex(), False]], [])
             elif cause == "eof":
                 fire(POLL.READ, [["", False]], [])
+            elif cause == "send-short-then-error":
+                do_send(op[2], [op[3], "e"], "app")
+            elif cause == "send-short-then-negative":
+                do_send(op[2], [op[3], -1], "app")
+            elif cause == "wev-short-then-error":
+                do_send(op[2], [op[3], "a"], "app")
+                env.clock[0] += 1
+                fire(POLL.WRITE, [], [1, "e"])
             else:
                 fire(POLL.READ, ["e"], [])
     obs["state"] = conn.state
@@ -1495,7 +1556,8 @@ def monitor_resend(env, sc, obs):
 
 
 def public_resend(env, sc):
-    ids = set(op[1] for op in sc["ops"] if op[0] == "send") | set(m for m, _ in (sc["cb"] or {}).get("sends", []))
+    ids = set(op[1] for op in sc["ops"] if op[0] == "send") | set(m for m, _ in (sc["cb"] or {}).get("sends", [])) | \
+        set(op[2] for op in sc["ops"] if op[0] == "kill" and len(op) > 2)
     c = json.loads(json.dumps(sc))
     c["vals"] = {str(i): env.pk.dumps(env.table.vals[i]).hex() for i in sorted(ids)}
     return c
@@ -1504,7 +1566,9 @@ def public_resend(env, sc):
 def load_resend(env, pc):
     remap = {int(k): env.table.vid(env.pk.loads(bytes.fromhex(h))) for k, h in pc.get("vals", {}).items()}
     c = {k: v for k, v in pc.items() if k != "vals"}
-    c["ops"] = [[op[0], remap.get(op[1], op[1]), op[2]] if op[0] == "send" else op for op in pc["ops"]]
+    c["ops"] = [[op[0], remap.get(op[1], op[1]), op[2]] if op[0] == "send" else
+                ([op[0], op[1], remap.get(op[2], op[2]), op[3]] if op[0] == "kill" and len(op) > 2 else op)
+                for op in pc["ops"]]
     if pc.get("cb"):
         c["cb"] = {"mode": pc["cb"]["mode"], "sends": [[remap.get(m, m), sc] for m, sc in pc["cb"]["sends"]]}
     return c
